@@ -60,7 +60,7 @@ def run(ctx):
     runner.prove(ctx, MODULE, THEOREMS, FILES)
     n = ctx.n(60, 400)
     cases = []
-    for s, w in valcases.schema_batch(ctx, n, customs=True):
+    for s, w in valcases.scalar_corpus() + valcases.schema_batch(ctx, n, customs=True):
         cases += valcases.value_cases(ctx, s, w, perturb=ctx.n(8, 20), zoo=ctx.n(8, 20), inject=ctx.n(6, 12))
     # the hostile zoo against a few fixed schemas with raise-prone arithmetic
     from d42 import schema
